@@ -170,6 +170,8 @@ def flavour(a, order):
         view = big[tuple(slice(None, None, 2) for _ in a.shape)]
         view[...] = a
         return view
+    if order == "single":  # single precision, what a user of Config(dtype=np.float32) would pass
+        return np.ascontiguousarray(a.astype(np.complex64 if a.dtype.kind == "c" else np.float32))
     if order == "readonly":
         b = np.ascontiguousarray(a).copy()
         b.setflags(write=False)
@@ -195,11 +197,29 @@ def build_instruction(ins):
     return obj
 
 
-def build_program(program_spec):
+def build_program(program_spec, style="list"):
     """Instruction specs -> Program.  {"type": "$nested", "register": [...], "program": [...]} registers a
-    sub-program on a register, exactly as `pq.Q(*register) | subprogram` does inside a `with pq.Program()`."""
+    sub-program on a register, exactly as `pq.Q(*register) | subprogram` does inside a `with pq.Program()`.
+
+    style "list": `Program(instructions=[ins.on_modes(...), ...])`; "context-all" / "context-empty": the
+    `with pq.Program(): pq.Q(...) | ins` form, instructions without modes registered on `pq.Q(all)` / `pq.Q()`.
+    """
     import piquasso as pq
 
+    if style != "list":
+        with pq.Program() as program:
+            for i in program_spec:
+                if i["type"] == "$nested":
+                    pq.Q(*i["register"]) | build_program(i["program"])
+                    continue
+                obj = build_instruction(dict(i, modes=None))
+                if i.get("modes") is not None:
+                    pq.Q(*i["modes"]) | obj
+                elif style == "context-all":
+                    pq.Q(all) | obj
+                else:
+                    pq.Q() | obj
+        return program
     program = pq.Program(instructions=[])
     for i in program_spec:
         if i["type"] == "$nested":
